@@ -9,16 +9,16 @@ Open Scope Z_scope.
 (* ------------------------------------------------------------------ stores *)
 Definition store_eq (a b : store) : Prop :=
   (forall f d, fdat a f d = fdat b f d) /\ (forall k, sval a k = sval b k) /\
-  rvar a = rvar b /\ rcnt a = rcnt b.
+  rvar a = rvar b /\ lvar a = lvar b /\ rcnt a = rcnt b.
 
 Lemma store_eq_refl a : store_eq a a.
 Proof. repeat split. Qed.
 
 Lemma eval_ext O bind a b df e :
-  (forall f, fdat a f df = fdat b f df) -> (forall k, sval a k = sval b k) -> rvar a = rvar b ->
+  (forall f, fdat a f df = fdat b f df) -> (forall k, sval a k = sval b k) -> rvar a = rvar b -> lvar a = lvar b ->
   eval O bind a df e = eval O bind b df e.
 Proof.
-  intros Hf Hs Hr. induction e as [k|k| |z|e IH|o x IHx y IHy|f x IHx y IHy|c kd e IH]; cbn [eval]; auto.
+  intros Hf Hs Hr Hl. induction e as [k|k| | |z|e IH|o x IHx y IHy|f x IHx y IHy|c kd e IH]; cbn [eval]; auto.
   - now rewrite IH.
   - now rewrite IHx, IHy.
   - now rewrite IHx, IHy.
@@ -29,7 +29,8 @@ Lemma eval_red_free O bind a b df e : red_free e = true ->
   (forall f, fdat a f df = fdat b f df) -> (forall k, sval a k = sval b k) ->
   eval O bind a df e = eval O bind b df e.
 Proof.
-  intros R Hf Hs. induction e as [k|k| |z|e IH|o x IHx y IHy|f x IHx y IHy|c kd e IH]; cbn [eval red_free] in *; auto.
+  intros R Hf Hs. induction e as [k|k| | |z|e IH|o x IHx y IHy|f x IHx y IHy|c kd e IH]; cbn [eval red_free] in *; auto.
+  - discriminate.
   - discriminate.
   - now rewrite IH.
   - apply andb_true_iff in R as [R1 R2]. now rewrite IHx, IHy.
@@ -89,19 +90,21 @@ Section Pointwise.
     (forall df, In df l -> fdat (run_loop O bind k l s) (bind out) df = eval O bind s df rhs) /\
     (forall f d, f <> bind out \/ ~ In d l -> fdat (run_loop O bind k l s) f d = fdat s f d) /\
     (forall j, sval (run_loop O bind k l s) j = sval s j) /\
-    rvar (run_loop O bind k l s) = rvar s /\ rcnt (run_loop O bind k l s) = rcnt s.
+    rvar (run_loop O bind k l s) = rvar s /\ rcnt (run_loop O bind k l s) = rcnt s /\
+    lvar (run_loop O bind k l s) = lvar s.
   Proof.
     induction l as [|d l IH]; intros s ND.
     - cbn. repeat split; auto. intros df [].
     - inversion ND as [|? ? Hni ND']; subst.
       unfold run_loop in *. cbn [fold_left].
-      destruct (IH (run_iter O bind k s d) ND') as (A & B & C & D & E).
-      split; [|split; [|split; [|split]]].
+      destruct (IH (run_iter O bind k s d) ND') as (A & B & C & D & E & F).
+      split; [|split; [|split; [|split; [|split]]]].
       + intros df [->|Hin].
         * rewrite B by (right; exact Hni). apply iter_self.
         * rewrite (A df Hin). apply eval_ext.
           -- intro f. apply iter_other. intros ->. contradiction.
           -- intro j. reflexivity.
+          -- reflexivity.
           -- reflexivity.
       + intros f x [Hf|Hx].
         * rewrite B by (left; exact Hf). now apply iter_otherfield.
@@ -110,6 +113,7 @@ Section Pointwise.
       + intro j. now rewrite C.
       + now rewrite D.
       + now rewrite E.
+      + now rewrite F.
   Qed.
 
   (* any two execution orders of the same iterations give the same store *)
@@ -118,8 +122,8 @@ Section Pointwise.
   Proof.
     intros ND P.
     assert (ND' : NoDup l') by (eapply Permutation_NoDup; eauto).
-    destruct (run_loop_assign l s ND) as (A & B & C & D & E).
-    destruct (run_loop_assign l' s ND') as (A' & B' & C' & D' & E').
+    destruct (run_loop_assign l s ND) as (A & B & C & D & E & F).
+    destruct (run_loop_assign l' s ND') as (A' & B' & C' & D' & E' & F').
     repeat split.
     - intros f d.
       destruct (Nat.eq_dec f (bind out)) as [->|Hf].
@@ -131,6 +135,7 @@ Section Pointwise.
       + rewrite B, B' by (left; exact Hf). reflexivity.
     - intro j. now rewrite C, C'.
     - now rewrite D, D'.
+    - now rewrite F, F'.
     - now rewrite E, E'.
   Qed.
 
@@ -219,6 +224,60 @@ Section Reduction.
   Qed.
 End Reduction.
 
+(* ------------------------------------------------------------------ reproducible OpenMP reductions *)
+Section ReductionLocal.
+  Variables (O : ops) (bind : nat -> fid) (rhs g : bexpr).
+  Hypothesis Hfree : red_free g = true.
+  Hypothesis Hrhs : forall s df, eval O bind s df rhs = lvar s + eval O bind s df g.
+  Let k := KReduceLocal rhs.
+
+  (* a thread accumulating into its own element: lvar grows by the sum of g over its iterations and
+     nothing else (in particular not the shared reduction variable) changes *)
+  Lemma run_loop_reduce_local : forall l s,
+    lvar (run_loop O bind k l s) = lvar s + sum_over O bind s g l /\
+    rvar (run_loop O bind k l s) = rvar s /\
+    (forall f d, fdat (run_loop O bind k l s) f d = fdat s f d) /\
+    (forall j, sval (run_loop O bind k l s) j = sval s j) /\
+    rcnt (run_loop O bind k l s) = rcnt s.
+  Proof.
+    induction l as [|d l IH]; intro s.
+    - cbn. unfold sum_over, zsum. cbn. repeat split; lia.
+    - unfold run_loop in *. cbn [fold_left].
+      destruct (IH (run_iter O bind k s d)) as (A & R & B & C & D).
+      assert (S1 : run_iter O bind k s d = set_loc s (lvar s + eval O bind s d g)).
+      { unfold k. cbn [run_iter]. now rewrite Hrhs. }
+      rewrite S1 in *.
+      assert (E : sum_over O bind (set_loc s (lvar s + eval O bind s d g)) g l = sum_over O bind s g l).
+      { unfold sum_over. f_equal. apply map_ext. intro df. apply eval_red_free; auto. }
+      split; [|split; [|split; [|split]]].
+      + rewrite A, E. cbn [set_loc lvar]. unfold sum_over. cbn [map]. unfold zsum. cbn [fold_right]. lia.
+      + rewrite R. reflexivity.
+      + intros f x. rewrite B. reflexivity.
+      + intro j. rewrite C. reflexivity.
+      + rewrite D. reflexivity.
+  Qed.
+
+  Lemma thread_local_sum_is s c : thread_local_sum O bind k true s c = sum_over O bind s g c.
+  Proof.
+    unfold thread_local_sum. destruct (run_loop_reduce_local c (set_loc s 0)) as (A & _). rewrite A.
+    cbn [set_loc lvar]. unfold sum_over. rewrite Z.add_0_l. f_equal. apply map_ext. intro df.
+    apply eval_red_free; auto.
+  Qed.
+
+  (* THE REPROD SCHEME: for any number of threads and any assignment of the iterations to threads,
+     per-thread partial sums accumulated from zero and then added over the threads give the
+     reduction variable's old value plus the sum of g over all assigned iterations *)
+  Lemma run_reprod_sum chunks s :
+    rvar (run_reprod O bind k true true chunks s) = rvar s + sum_over O bind s g (List.concat chunks) /\
+    (forall f d, fdat (run_reprod O bind k true true chunks s) f d = fdat s f d) /\
+    (forall j, sval (run_reprod O bind k true true chunks s) j = sval s j).
+  Proof.
+    unfold run_reprod. cbn [set_red rvar fdat sval]. split; [|split; auto].
+    rewrite fold_left_add. f_equal. rewrite <- (sum_over_concat O bind g). f_equal.
+    apply map_ext. intro c. apply thread_local_sum_is.
+  Qed.
+End ReductionLocal.
+
 (* ------------------------------------------------------------------ setval_random *)
 Section Random.
   Variables (O : ops) (bind : nat -> fid) (out : nat).
@@ -265,7 +324,7 @@ End Random.
 Definition valid_schedule (i : instance) (d : docentry) (L : layout) (sch : schedule) : Prop :=
   let iters := zrange (eval_bound L (i_lo i)) (eval_bound L (i_hi i)) in
   match sch with
-  | SSerial => True                                  (* also: OpenMP with one thread *)
+  | SSerial => kern_is_local (i_kern i) = false      (* also: non-reprod OpenMP with one thread *)
   | SPerm order => i_omp i <> None /\ is_reduction_spec (d_spec d) = false /\ Permutation iters order
   | SChunks chunks => i_omp i <> None /\ is_reduction_spec (d_spec d) = true /\ Permutation iters (List.concat chunks)
   end.
@@ -293,17 +352,31 @@ Lemma iters_doc i d L : range_ok i d ->
   zrange 1 (doc_hi (i_dm i) (i_annexed i) (is_reduction_spec (d_spec d)) L).
 Proof. intros (Hlo & Hhi & _). now rewrite Hlo, Hhi. Qed.
 
+Lemma reprod_of_spec i d : skeleton_ok i d ->
+  match reprod_of i with
+  | Some r => kern_is_local (i_kern i) = true /\ rp_local_zeroed r = true /\ rp_final_sum_all_threads r = true
+  | None => kern_is_local (i_kern i) = false
+  end.
+Proof.
+  intros (_ & _ & _ & H). unfold reprod_of. destruct (i_omp i) as [o|]; [|exact H].
+  destruct H as (_ & _ & H). destruct (omp_form_of o) as [| |r].
+  - exact (proj1 H).
+  - exact (proj1 H).
+  - destruct H as (_ & A & _ & B & _ & _ & C). auto.
+Qed.
+
 Theorem instance_correct : forall i d, instance_ok i d ->
   forall O bind L sch s, valid_schedule i d L sch ->
   doc_post O bind L (i_dm i) (i_annexed i) (d_spec d) s (run_instance O bind L i sch s).
 Proof.
   intros i d (Hname & Hk & Hr & Hsk) O bind L sch s Hv.
+  pose proof (reprod_of_spec i d Hsk) as Hrp.
   destruct Hsk as (Hargs & Hzero & Hgs & Homp).
   unfold run_instance, valid_schedule in *. rewrite (iters_doc i d L Hr) in *.
   set (hi := doc_hi (i_dm i) (i_annexed i) (is_reduction_spec (d_spec d)) L) in *.
   unfold doc_post. fold hi.
-  destruct (d_spec d) as [out rhs|g|out] eqn:Ed; destruct (i_kern i) as [out' rhs'|rhs'|out'] eqn:Ek;
-    cbn [kern_matches is_reduction_spec] in *; try contradiction.
+  destruct (d_spec d) as [out rhs|g|out] eqn:Ed; destruct (i_kern i) as [out' rhs'|rhs'|rhs'|out'] eqn:Ek;
+    cbn [kern_matches is_reduction_spec kern_is_local] in *; try contradiction.
   - (* pointwise *)
     destruct Hk as [-> Hev]. rewrite Hzero.
     assert (G : forall order, Permutation (zrange 1 hi) order ->
@@ -333,7 +406,21 @@ Proof.
       split; [|split]; auto. rewrite A, Hs0. cbn. lia.
     + destruct Hv as (_ & H & _). discriminate.
     + destruct Hv as (_ & _ & P).
+      destruct (reprod_of i) as [r|]; [destruct Hrp as (Hrp & _); discriminate|].
       destruct (run_omp_reduction_sum O bind rhs' g Hfree (fun s0 df => Hev O bind s0 df) chunks (set_red s 0)) as (A & B & C).
+      split; [|split]; auto. rewrite A, Hs0. cbn [set_red rvar].
+      rewrite (sum_over_perm O bind g s _ _ P). lia.
+  - (* reduction, reproducible OpenMP scheme *)
+    destruct Hk as [Hfree Hev]. rewrite Hzero.
+    assert (Hs0 : forall l, sum_over O bind (set_red s 0) g l = sum_over O bind s g l).
+    { intro l. unfold sum_over. f_equal. apply map_ext. intro df. apply eval_red_free; auto. }
+    destruct sch as [|order|chunks].
+    + discriminate.
+    + destruct Hv as (_ & H & _). discriminate.
+    + destruct Hv as (_ & _ & P).
+      destruct (reprod_of i) as [r|]; [|discriminate].
+      destruct Hrp as (_ & -> & ->).
+      destruct (run_reprod_sum O bind rhs' g Hfree (fun s0 df => Hev O bind s0 df) chunks (set_red s 0)) as (A & B & C).
       split; [|split]; auto. rewrite A, Hs0. cbn [set_red rvar].
       rewrite (sum_over_perm O bind g s _ _ P). lia.
   - (* random *)
@@ -390,40 +477,36 @@ Proof.
 Qed.
 
 (* ------------------------------------------------------------------ coverage *)
-Lemma covered_sound tbl n dm ann omp : covered tbl n dm ann omp = true ->
-  exists i d, In (i, d) tbl /\ i_name i = n /\ i_dm i = dm /\ i_annexed i = ann /\
-              (i_omp i <> None <-> omp = true).
+Lemma covered_sound tbl n dm ann form : covered tbl n dm ann form = true ->
+  exists i d, In (i, d) tbl /\ i_name i = n /\ i_dm i = dm /\ i_annexed i = ann /\ omp_code i = form.
 Proof.
   unfold covered. rewrite existsb_exists. intros [[i d] [Hin H]]. exists i, d. split; auto.
   unfold setting_eqb in H. cbn [fst] in H.
   repeat (apply andb_true_iff in H as [H ?]).
-  apply String.eqb_eq in H. apply Bool.eqb_prop in H0, H1, H2.
+  apply String.eqb_eq in H. apply Bool.eqb_prop in H2. apply Bool.eqb_prop in H1. apply Nat.eqb_eq in H0.
   repeat split; auto.
-  - intro Hne. rewrite <- H0. destruct (i_omp i); congruence.
-  - intros ->. destruct (i_omp i); [discriminate | discriminate].
 Qed.
 
-Lemma all_settings_covered_sound tbl names : all_settings_covered tbl names = true ->
+Lemma form_covered_sound tbl form names : form_covered tbl form names = true ->
+  forall n, In n names -> forall dm ann, exists i d,
+    In (i, d) tbl /\ i_name i = n /\ i_dm i = dm /\ i_annexed i = ann /\ omp_code i = form.
+Proof.
+  unfold form_covered. rewrite forallb_forall. intros H n Hn dm ann.
+  specialize (H n Hn). repeat (apply andb_true_iff in H as [H ?]).
+  assert (C : covered tbl n dm ann form = true) by (destruct dm, ann; assumption).
+  exact (covered_sound _ _ _ _ _ C).
+Qed.
+
+Lemma omp_code_0 i : omp_code i = 0%nat -> i_omp i = None.
+Proof. unfold omp_code. destruct (i_omp i) as [o|]; [destruct (omp_form_of o); discriminate | reflexivity]. Qed.
+
+Lemma all_settings_covered_sound tbl names : form_covered tbl 0 names = true ->
   forall n, In n names -> forall dm ann, exists i d,
     In (i, d) tbl /\ i_name i = n /\ i_dm i = dm /\ i_annexed i = ann /\ i_omp i = None.
 Proof.
-  unfold all_settings_covered. rewrite forallb_forall. intros H n Hn dm ann.
-  specialize (H n Hn). repeat (apply andb_true_iff in H as [H ?]).
-  assert (C : covered tbl n dm ann false = true) by (destruct dm, ann; assumption).
-  destruct (covered_sound _ _ _ _ _ C) as (i & d & Hin & A & B & E & F).
-  exists i, d. repeat split; auto. destruct (i_omp i) eqn:Eo; auto.
-  assert (false = true) by (apply F; discriminate). discriminate.
-Qed.
-
-Lemma omp_settings_covered_sound tbl names : omp_settings_covered tbl names = true ->
-  forall n, In n names -> forall dm ann, exists i d,
-    In (i, d) tbl /\ i_name i = n /\ i_dm i = dm /\ i_annexed i = ann /\ i_omp i <> None.
-Proof.
-  unfold omp_settings_covered. rewrite forallb_forall. intros H n Hn dm ann.
-  specialize (H n Hn). repeat (apply andb_true_iff in H as [H ?]).
-  assert (C : covered tbl n dm ann true = true) by (destruct dm, ann; assumption).
-  destruct (covered_sound _ _ _ _ _ C) as (i & d & Hin & A & B & E & F).
-  exists i, d. repeat split; auto. apply F. reflexivity.
+  intros H n Hn dm ann.
+  destruct (form_covered_sound _ _ _ H n Hn dm ann) as (i & d & A & B & C & D & E).
+  exists i, d. repeat split; auto. now apply omp_code_0.
 Qed.
 
 (* ------------------------------------------------------------------ remarks on the guide's prose for sign_X *)
@@ -438,7 +521,7 @@ Proof. exists (-2), 3. vm_compute. discriminate. Qed.
 (* ------------------------------------------------------------------ non-vacuity *)
 Definition ex_ops : ops := mkOps Z.quot Z.pow (fun _ _ z => z) (fun n => Z.of_nat n).
 Definition ex_store : store :=
-  mkStore (fun f d => Z.of_nat f * 100 + d) (fun k => Z.of_nat k + 2) 77 0.
+  mkStore (fun f d => Z.of_nat f * 100 + d) (fun k => Z.of_nat k + 2) 77 55 0.
 Definition ex_inc_X_plus_Y : instance :=
   mkInst "inc_X_plus_Y" true true [AFld TReal true; AFld TReal false] false None
          (BLit 1) (BLastAnnexed 0) (KAssign 0 (XBin OAdd (XFld 0) (XFld 1))) false.
@@ -460,7 +543,7 @@ Proof. vm_compute. reflexivity. Qed.
 
 Example ex_valid_perm :
   valid_schedule (mkInst "inc_X_plus_Y" true true [AFld TReal true; AFld TReal false] false
-                    (Some (mkOmp true true false "static")) (BLit 1) (BLastAnnexed 0)
+                    (Some (mkOmp OParDo true true false "static")) (BLit 1) (BLastAnnexed 0)
                     (KAssign 0 (XBin OAdd (XFld 0) (XFld 1))) false)
                  ex_doc_inc_X_plus_Y ex_layout (SPerm [7; 3; 1; 2; 6; 5; 4]).
 Proof.
